@@ -129,8 +129,23 @@ def c02_layouts(tier, seed):
     return Ls
 
 
+def c02_extra_layouts(tier):
+    """every writable field kind, not only contiguous ones: lists (signed and unsigned), so that the
+    with_/set_ agreement and receiver-unchanged clauses are decided for those bodies too"""
+    Ls = []
+    for W in (16, 32, 64, 128, 24, 100):
+        Ls.append(Layout(W, [Field("f", T_int(8), [(8, 4), (0, 4)], None, "rw")], tag=f"i8 list high,low not touching the top on u{W}"))
+        Ls.append(Layout(W, [Field("f", T_uint(8), [(W - 9, 4), (1, 4)], None, "w")], tag=f"write-only u8 list on u{W}"))
+        Ls.append(Layout(W, [Field("f", T_uint(5), [(0, 2), (W - 3, 3)], None, "rw")], tag=f"u5 list touching the top on u{W}"))
+        if W >= 34:
+            Ls.append(Layout(W, [Field("f", T_int(16), [(W - 17, 8), (3, 8)], None, "rw")], tag=f"i16 list on u{W}"))
+            Ls.append(Layout(W, [Field("f", T_int(32), [(0, 31), (W - 2, 1)], None, "rw")], tag=f"i32 with its sign bit stored apart on u{W}"))
+        Ls.append(Layout(W, [Field("a", T_int(8), [(4, 4), (0, 4)], (W // 8 if W % 8 == 0 else W // 8, 8, True), "rw")], tag=f"array of i8 lists on u{W}"))
+    return Ls
+
+
 def plan_c02(tier, seed):
-    Ls = c02_layouts(tier, seed)
+    Ls = c02_layouts(tier, seed) + c02_extra_layouts(tier)
     us = units_from(Ls, lambda L: [H.h_set(L, f, "C02") for f in L.fields])
     add_controls(us, "C02", kinds=("set", "set", "set"))
     return Plan(us, title="setter == reference scatter", chunk=200 if tier == "quick" else 600,
@@ -604,10 +619,20 @@ def placements(W, w):
         s = w + 1
         K = min((W - w) // s + 1, 6)
         P.append((f"array stride {s} K={K}", [(0, w)], (K, s, True)))
+    if W // 4 >= w and W >= 16:
+        P.append((f"array K=4 spread over the base (stride {W // 4})", [(0, w)], (4, W // 4, W // 4 != w)))
+        if W // 4 > w:
+            P.append((f"array K=4 spread, each element at the top of its quarter", [(W // 4 - w, w)], (4, W // 4, True)))
     if w >= 2 and W - w >= 1:
         h1 = w // 2
         h2 = w - h1
         P.append(("list swapped halves", [(W - h2, h2), (0, h1)], None))
+    if w >= 2 and W >= 16 and W // 2 - 1 + w - w // 2 <= W and w // 2 <= W // 2 - 1:
+        # a list with a piece straddling the middle of the base (bit W/2-1 | W/2)
+        h1 = w // 2
+        h2 = w - h1
+        if h2 >= 2 and W // 2 - 1 + h2 <= W and h1 <= W // 2 - 1:
+            P.append(("list with a piece straddling the middle", [(W // 2 - 1, h2), (0, h1)], None))
     if w >= 2 and 2 * w + 2 <= W:
         h1 = w // 2
         h2 = w - h1
@@ -624,14 +649,16 @@ def c08_layouts(tier, seed):
         for W in NATIVE_BASES:
             if W >= w:
                 bases.append(W)
-        bases = bases[:2] if tier == "quick" else bases
+        if tier == "quick":
+            bases = bases[:1] + ([128] if 128 not in bases[:1] else [])
         arb = [n for n in ([24, 65, 100, 127] if tier == "quick" else ALL_ARB[::9] + [127]) if n >= w]
         bases += arb[:1] if tier == "quick" else arb[:4]
         for W in bases:
-            for (ft, aux) in custom_types_for(w, tier, rnd):
-                for (ptag, rs, arr) in placements(W, w):
-                    if tier == "quick" and ptag in ("plain unaligned",) and ft.kind in ("custom",):
-                        continue
+            tys = custom_types_for(w, tier, rnd)
+            for pi, (ptag, rs, arr) in enumerate(placements(W, w)):
+                # quick: every placement gets two of the type presentations (rotating), thorough: all
+                sel = tys if tier != "quick" else [tys[(pi + k) % len(tys)] for k in range(min(2, len(tys)))]
+                for (ft, aux) in sel:
                     import copy
                     Ls.append(Layout(W, [Field("f", copy.deepcopy(ft), rs, arr, "rw")], aux=[copy.deepcopy(aux)], tag=f"{ft.kind} w={w} {ptag} on u{W}"))
     return Ls
@@ -873,6 +900,21 @@ def c13_layouts(tier, seed):
     Ls.append(Layout(8, [Field("a", T_uint(4), [(0, 1), (2, 1), (4, 1), (6, 1)], (2, 1, True), "rw")], tag="interleaving even/odd array with builder (documented test)"))
     Ls.append(Layout(24, [Field("a", T_uint(8), [(0, 8)], (3, 8, False), "w")], tag="u24 three bytes write-only complete"))
     Ls.append(Layout(9, [Field("r0", T_uint(4), [(0, 4)], None, "r"), Field("w0", T_uint(5), [(4, 5)], None, "w")], default=("lit", 0x1ff, "hex"), tag="read-only gap keeps default bits"))
+    # strided arrays with gap bits: K * stride == base width, other fields / default bits live in the gaps
+    for W in NATIVE_BASES + [24, 48, 100]:
+        for w in (1, 4, 8):
+            s_ = 2 * w
+            if W % s_ or W // s_ < 2 or W // s_ > 16:
+                continue
+            K = W // s_
+            ety = ty_for_width(w)
+            ones = ("lit", mask(W), "hex")
+            Ls.append(Layout(W, [Field("a", ety, [(0, w)], (K, s_, True), "rw")], default=ones, tag=f"strided array from bit 0, K*stride == {W}, default all ones (gap bits set) on u{W}"))
+            Ls.append(Layout(W, [Field("odd", ety, [(w, w)], (K, s_, True), "rw"), Field("even", ety, [(0, w)], (K, s_, True), "rw")], tag=f"two interleaved strided arrays, upper one declared first, complete, on u{W}"))
+            Ls.append(Layout(W, [Field("even", ety, [(0, w)], (K, s_, True), "w"), Field("odd", ety, [(w, w)], (K, s_, True), "rw")], default=("lit", mask(W) ^ 0x5, "hex"), tag=f"two interleaved strided arrays, lower one first, with default, on u{W}"))
+        if W >= 16:
+            h = W // 2
+            Ls.append(Layout(W, [Field("top", T_uint(h // 2), [(h + h // 2, h // 2)], None, "rw"), Field("a", T_uint(h // 2), [(0, h // 2)], (2, h, True), "rw")], default=ones, tag=f"scalar in a gap declared before the strided array on u{W}"))
     return Ls
 
 
@@ -882,9 +924,7 @@ def plan_c13(tier, seed):
     for k in (0, len(us) // 2, len(us) - 1):
         L = us[k].meta["layout"]
         h = h_builder(L, "ctl_builder")
-        h.body = h.body.replace(f"let mut want: u128 = {L.default_value():#x}u128;", f"let mut want: u128 = {(L.default_value() ^ (1 << (L.base - 1))):#x}u128;", 1)
-        # flip a bit no... the top bit may be covered by a field; use a wrong FIRST write instead
-        h.body = h.body.replace("want = spec::put(want,", "want = 1u128 ^ spec::put(want,", 1)
+        h.body = h.body.replace('== want, "VERIF builder()...build() != default', '== (want ^ 1u128), "VERIF builder()...build() != default', 1)
         h.expect, h.family = "control", "control"
         us[k].harnesses.append(h)
     return Plan(us, title="builder == default with every field written", chunk=60 if tier == "quick" else 150, harness_timeout=600,
@@ -1091,6 +1131,20 @@ def c16_layouts(tier, seed):
             Ls.append(Layout(W, [Field("f", T_uint(64), [(W - 32, 32), (0, 32)], None, "rw"), Field("g", T_int(64), [(0, 32), (W - 32, 32)], None, "rw")], tag=f"64-bit lists on u{W}"))
         if W >= 4:
             Ls.append(Layout(W, [Field("f", T_uint(2), [(W - 1, 1), (0, 1)], None, "rw"), Field("a", T_uint(2), [(0, 1), (W // 2, 1)], (2, 1, True), "rw")], tag=f"list touching top + array of lists on u{W}"))
+        # range lists of native-typed fields split at the extreme sizes: (n-1 | 1), (1 | n-1), halves;
+        # signed and unsigned; the first piece at bit 0, the last ending on the top bit when it fits
+        for n in NATIVE:
+            if n > W or (tier == "quick" and W not in NATIVE_BASES + [24, 65, 127]):
+                continue
+            for (a_, b_) in ((n - 1, 1), (1, n - 1), (n // 2, n - n // 2)):
+                if W - n >= 1:
+                    rs = [(0, a_), (W - b_, b_)]
+                    rs2 = [(W - b_, b_), (0, a_)]
+                else:
+                    rs = [(0, a_), (a_, b_)]
+                    rs2 = [(a_, b_), (0, a_)] if False else [(b_, a_), (0, b_)]
+                for ty in (T_int(n), T_uint(n)):
+                    Ls.append(Layout(W, [Field("f", ty, rs, None, "rw"), Field("g", ty, rs2, None, "rw")], tag=f"{ty.decl_ty()} split {a_}|{b_} as range lists on u{W}"))
         if W == 128:
             Ls.append(Layout(W, [Field("f", T_uint(128), [(64, 64), (0, 64)], None, "rw")], tag="128-bit swapped halves"))
             Ls.append(Layout(W, [Field("f", T_int(128), [(0, 128)], None, "rw")], tag="i128 full width"))
